@@ -5,12 +5,13 @@ T = {
     'RB': 'cocls::reusable_buffer_storage<%s >' % VEC, 'VECC': VEC,
     'PES': 'cocls::promise_extra_storage<Extra, cocls::default_storage>', 'PESR': 'cocls::promise_extra_storage<Extra, cocls::reusable_storage>',
     'EXTRA': 'Extra', 'FNB': 'cocls::function_base<64UL, false, Extra>',
+    'PESM': 'cocls::promise_extra_storage<Extra, cocls::reusable_storage_mtsafe>',
 }
 def cls_rx(cpp):
     import re
     return re.escape(cpp)
 RSX, MTX, PAX, SSX, DSX = (cls_rx('cocls::' + c) for c in ('reusable_storage', 'reusable_storage_mtsafe', 'placement_alloc', 'stack_storage', 'default_storage'))
-RBX, PESX, PESRX = cls_rx(T['RB']), cls_rx(T['PES']), cls_rx(T['PESR'])
+RBX, PESX, PESRX, PESMX = cls_rx(T['RB']), cls_rx(T['PES']), cls_rx(T['PESR']), cls_rx(T['PESM'])
 UL = r'unsigned long'
 FN = {   # alias -> regex on the demangled signature
     'ds_alloc': r'^%s::alloc\(%s\)$' % (DSX, UL), 'ds_dealloc': r'^%s::dealloc\(void\*, %s\)$' % (DSX, UL),
@@ -27,6 +28,7 @@ FN = {   # alias -> regex on the demangled signature
     'pes_alloc': r'^%s::alloc\(%s\)$' % (PESX, UL), 'pes_dealloc': r'^%s::dealloc\(void\*, %s\)$' % (PESX, UL),
     'pes_arrow': r'^%s::operator->\(\)$' % PESX, 'pes_deref': r'^%s::operator\*\(\)$' % PESX,
     'pesr_alloc': r'^%s::alloc\(%s\)$' % (PESRX, UL), 'pesr_dealloc': r'^%s::dealloc\(void\*, %s\)$' % (PESRX, UL),
+    'pesm_alloc': r'^%s::alloc\(%s\)$' % (PESMX, UL), 'pesm_dealloc': r'^%s::dealloc\(void\*, %s\)$' % (PESMX, UL),
     'factory_call': r'^Extra cocls::function_base<64ul, false, Extra>::operator\(\)<>\(\) const$',
 }
 VEC_BOUNDARY = [r'^std::vector<char, std::allocator<char> >::']
@@ -63,7 +65,27 @@ UNITS = [
     unit('pes_alloc', ['PES', 'EXTRA', 'FNB'], **FACTORY), unit('pes_dealloc', ['PES', 'EXTRA'], defines=XH),
     unit('pes_arrow', ['PES', 'EXTRA']), unit('pes_deref', ['PES', 'EXTRA']),
     unit('pesr_alloc', ['PESR', 'RS', 'EXTRA', 'FNB'], **FACTORY), unit('pesr_dealloc', ['PESR', 'RS', 'EXTRA'], defines=XH),
+    # composed: the REAL reusable_storage_mtsafe (trailer = owner pointer at ptr+size) as inner policy of promise_extra_storage
+    unit('pesm_alloc', ['PESM', 'MT', 'RS', 'EXTRA', 'FNB'], timeout=900, **FACTORY), unit('pesm_dealloc', ['PESM', 'MT', 'RS', 'EXTRA'], defines=XH),
 ]
+
+def hs(tag, cpp, inner, inner_this=None):
+    """size hand-shake of promise_extra_storage<Extra, Alloc> with an ABSTRACT inner policy: Alloc::alloc / Alloc::dealloc are boundary
+    functions with recording stubs (st_spec.h, C19_INNER_ABSTRACT).  names_opt: a change that stops calling them fails the
+    'exactly one call' clause, not the extraction.  One generic contract (aliases xs_alloc / xs_dealloc, type XS) serves all instances."""
+    ty = {'XS': T[cpp], 'EXTRA': T['EXTRA'], 'FNB': T['FNB']}
+    defs = XH + ['C19_INNER_ABSTRACT 1']
+    if inner_this:
+        ty[inner_this] = T[inner_this]; defs = defs + ['C19_INNER_THIS %s' % inner_this]
+    base = dict(driver='c19_storage.cpp', types=ty, lib=list(LIBS), spec=list(SPEC), defines=defs, timeout=300)
+    a = dict(base, name=tag + '_alloc_hs', roots=[FN[tag + '_alloc']], names={'xs_alloc': FN[tag + '_alloc']},
+             names_opt={'inner_alloc': FN[inner + '_alloc'], 'factory_call': FN['factory_call']}, boundary=[FN[inner + '_alloc'], FN['factory_call']],
+             harness='h_xs_alloc', enforce='xs_alloc', under_contract=[FN[tag + '_alloc'].strip('^$').replace('\\', '')])
+    d = dict(base, types={k: v for k, v in ty.items() if k != 'FNB'}, name=tag + '_dealloc_hs', roots=[FN[tag + '_dealloc']], names={'xs_dealloc': FN[tag + '_dealloc']},
+             names_opt={'inner_dealloc': FN[inner + '_dealloc']}, boundary=[FN[inner + '_dealloc']],
+             harness='h_xs_dealloc', enforce='xs_dealloc', under_contract=[FN[tag + '_dealloc'].strip('^$').replace('\\', '')])
+    return [a, d]
+UNITS += hs('pes', 'PES', 'ds') + hs('pesr', 'PESR', 'rs', 'RS') + hs('pesm', 'PESM', 'mt', 'MT')
 
 def life(tag, fns, types, extra_roots=(), boundary=(), lib=LIBS, hooks=False, abstract=None, **kw):
     """lemma unit: a plain CBMC harness over the real bodies of several members (no contract instrumentation)"""
@@ -77,19 +99,22 @@ def life(tag, fns, types, extra_roots=(), boundary=(), lib=LIBS, hooks=False, ab
 BFC = r'^std::bad_function_call::'
 import re as _re
 POLICIES = [('ds', 'cocls::default_storage'), ('rs', 'cocls::reusable_storage'), ('pa', 'cocls::placement_alloc'), ('mt', 'cocls::reusable_storage_mtsafe'),
-            ('ss', 'cocls::stack_storage'), ('rb', T['RB']), ('pes', T['PES']), ('pesr', T['PESR'])]
+            ('ss', 'cocls::stack_storage'), ('rb', T['RB']), ('pes', T['PES']), ('pesr', T['PESR']), ('pesm', T['PESM'])]
 def ops_unit():
     names = {}; names_opt = {}; roots = []; boundary = []; uc = []
     for tag, cpp in POLICIES:
         base = r'cocls::custom_allocator_base<%s, cocls::async_promise<int> >::' % _re.escape(cpp)
         names['new_' + tag] = r'^void\* ' + base + r'operator new<int&>\('
         names['new2_' + tag] = r'^void\* ' + base + r'operator new<Host, int&>\('
-        names['delete_' + tag] = r'^' + base + r'operator delete\(void\*, unsigned long\)$'
+        # operator delete is reached through the driver's drv_delete_<tag> (c19_promise_delete<>: calls it as the coroutine's destroy code
+        # would, whatever its signature is) - a changed signature then fails the forwarder obligation instead of the extraction
+        names['delete_' + tag] = r'^drv_delete_%s$' % tag
+        names_opt['opdel_' + tag] = r'^' + base + r'operator delete\(void\*.*\)$'
         for k in ('new_', 'new2_', 'delete_'): roots.append(names[k + tag])
         for k in ('_alloc', '_dealloc'):
             names_opt[tag + k] = FN[tag + k]; boundary.append(FN[tag + k])
         uc += ['cocls::custom_allocator_base<%s, cocls::async_promise<int> >::operator new / operator delete' % cpp]
-    ty = {k: T[k] for k in ('RS', 'PA', 'MT', 'SS', 'RB', 'PES', 'PESR')}
+    ty = {k: T[k] for k in ('RS', 'PA', 'MT', 'SS', 'RB', 'PES', 'PESR', 'PESM')}
     return dict(name='ops', kind='lemma', driver='c19_storage.cpp', roots=roots, names=names, names_opt=names_opt, types=ty, boundary=boundary, lib=list(LIBS),
                 defines=DEFS + ['C19_LEMMA 1', 'C19_OPS 1'], spec=['C19/st_spec.h', 'C19/h_lemmas.c'], harness='h_ops', under_contract=uc, timeout=300)
 # thread-modular reading of the mtsafe storage: atomics = protocol primitives with interference by other threads (C19/c19_atomics.h)
@@ -107,6 +132,8 @@ UNITS += [
     life('rb', ['rb_ctor', 'rb_alloc', 'rb_dealloc'], ['RB', 'VECC'], boundary=VEC_BOUNDARY, lib=LIBS + ['model_vector_char.c']),
     life('pes', ['pes_alloc', 'pes_dealloc'], ['PES', 'EXTRA'], extra_roots=[r'^drv_pes_ctor$', r'^drv_pes_dtor$'], hooks=True, boundary=[BFC], abstract={'bad_function_call_ctor': r'^std::bad_function_call::bad_function_call\(\)$'}),
     life('pesr', ['pesr_alloc', 'pesr_dealloc'], ['PESR', 'RS', 'EXTRA'], extra_roots=[r'^drv_pesr_ctor$', r'^drv_pesr_dtor$'], hooks=True, boundary=[BFC], abstract={'bad_function_call_ctor': r'^std::bad_function_call::bad_function_call\(\)$'}),
+    # composed life cycle: promise_extra_storage over the REAL reusable_storage_mtsafe (block not released, flag cleared, owner trailer behind the extra object)
+    life('pesm', ['pesm_alloc', 'pesm_dealloc'], ['PESM', 'MT', 'RS', 'EXTRA'], extra_roots=[r'^drv_pesm_ctor$', r'^drv_pesm_dtor$'], hooks=True, boundary=[BFC], abstract={'bad_function_call_ctor': r'^std::bad_function_call::bad_function_call\(\)$'}, timeout=900),
     ops_unit(),
 ]
 
@@ -114,7 +141,7 @@ META = dict(
     level='proof',
     level_text=(
         'Every alloc and every dealloc of default_storage, reusable_storage, reusable_storage_mtsafe, stack_storage, placement_alloc, '
-        'reusable_buffer_storage<std::vector<char>> and promise_extra_storage<Extra, default_storage | reusable_storage> - plus their constructors, '
+        'reusable_buffer_storage<std::vector<char>> and promise_extra_storage<Extra, default_storage | reusable_storage | reusable_storage_mtsafe> - plus their constructors, '
         'destructors, moves and accessors - is verified against an enforced contract on the real (translated) body, for every frame size '
         '1 <= sz < 2^30, every capacity / shared-state value and every representation (no block yet / block present, flag free / taken, own block / '
         'heap fallback). All bodies are loop-free, so each contract unit is a complete proof of its function. Postconditions (from the property '
@@ -126,14 +153,28 @@ META = dict(
         'the shared state sz+1 exactly when it had to fall back; reusable_buffer_storage leaves a large-enough buffer untouched; the extra object of '
         'promise_extra_storage is constructed exactly once by the storage\'s factory at ptr+sz inside the block, is what `inventory` / operator-> / operator* '
         'designate when alloc returns, and is destroyed exactly once by dealloc while its memory is still valid, before the block is released. '
+        'SIZE HAND-SHAKE of promise_extra_storage<T, Alloc> (units pes|pesr|pesm_alloc_hs / _dealloc_hs, inner policy ABSTRACT: Alloc::alloc and '
+        'Alloc::dealloc are recording stubs): the clauses "released exactly once", "exclusively its own", "no further heap memory after warm-up" belong '
+        'to the inner policy, which finds its bookkeeping at ptr+size; they carry over only if alloc asks the inner policy (of this very storage '
+        'object) exactly once for sz + sizeof(T) and returns exactly its block, and dealloc(ptr, sz) hands back, exactly once, EXACTLY that block '
+        'with EXACTLY the size that was requested from it (sz + sizeof(T)), after the extra object has been destroyed exactly once and while the '
+        'block is still valid, with no heap traffic of its own - stated as ensures clauses over the recorded arguments. COMPOSED with the real '
+        'reusable_storage_mtsafe as inner policy (units pesm_alloc, pesm_dealloc: contracts over the real bodies of both layers; life_pesm: real '
+        'bodies + real function<> factory in sequence): the owner trailer is written and read behind frame AND extra object (ptr+sz+sizeof(T)) '
+        'for every content of the extra object, dealloc of a frame in the own block releases nothing and clears the busy flag, a heap fallback '
+        'is released exactly once and leaves the flag alone, the next equally sized frame causes no heap traffic, the storage destructor '
+        'releases the own block exactly once. '
         'reusable_storage_mtsafe is verified twice: with sequential atomics, and thread-modularly (mt_*_tm units) with protocol primitives that let other '
         'threads take, grow and release the own block before the deciding exchange: the own block is handed out iff the single atomic exchange observed '
         '"free" (then this thread holds the unique BLOCK token and nobody else touches _ptr/_capacity), otherwise neither _ptr, _capacity nor the own block '
         'are read or written; the flag is stored false only by the token holder. custom_allocator_base::operator new (both placement forms) and operator '
-        'delete are proved to be exact forwarders to Allocator::alloc / dealloc (same size, same pointer, exactly one call) for all eight policies. '
+        'delete are proved to be exact forwarders to Allocator::alloc / dealloc (same size, same pointer, exactly one call) for all nine policy '
+        'instances; operator delete is invoked through drivers/c19_storage.cpp:c19_promise_delete<promise>(ptr, sz), which calls the promise\'s '
+        'deallocation function as the coroutine\'s destroy code does ((ptr, frame size) if it takes a size, else (ptr)), so a changed signature '
+        'keeps the driver TU compilable (the other units stay decidable) and fails the forwarder obligation of unit ops instead. '
         'Lemma units run the real bodies in sequence (exhaustive, symbolic sizes): alloc;dealloc (+ destructor) leaves allocations == releases for every '
         'policy, no block is released twice or used after release, equal-or-smaller frames after warm-up cause no heap traffic (reusable, mtsafe, stack, '
-        'buffer, extra+reusable), two simultaneously live frames on one mtsafe storage are different objects whose canaries survive every operation on '
+        'buffer, extra+reusable, extra+mtsafe), two simultaneously live frames on one mtsafe storage are different objects whose canaries survive every operation on '
         'the other in both completion orders, and the real cocls::function<> factory machinery constructs / destroys the extra object exactly once per frame.'),
     level_note=(
         'Trusted: clang front end, ir2c, heap primitive with log (lib/model_heap_log.c), abstract std::vector<char> (lib/model_vector_char.c), the '
@@ -153,13 +194,15 @@ META = dict(
     trusted_base=[
         'heap primitive with a log of the last allocated / released block (lib/model_heap_log.c; same semantics as rt_core.c plus three ghosts)',
         'assumed contract: std::vector<char> size()/resize()/data() - one block, grows to an arbitrary capacity >= n through operator new/delete, never reallocates when n <= capacity; element values not modelled (lib/model_vector_char.c)',
+        'abstract inner policy of the *_hs units (specs/C19/st_spec.h, C19_INNER_ABSTRACT): Alloc::alloc(n) returns some fresh block of exactly n bytes and does not fail, Alloc::dealloc(p, n) does nothing; both only record call count, object, arguments and the number of extra-object destructions seen so far (what a real inner policy does with the block is verified in its own units and, for reusable_storage_mtsafe, in the composed units pesm_* / life_pesm)',
+        'drivers/c19_storage.cpp:c19_promise_delete<P> stands for the compiler-generated deallocation call of a coroutine frame (selection between the sized and the unsized form of P::operator delete by requires-expressions)',
         'assumed contract (contract units only): cocls::function<Extra()>::operator() constructs exactly one Extra in the place it is given and does not throw; the lemma units life_pes / life_pesr run the real function<> machinery instead',
         'observation hooks c19_extra_ctor / c19_extra_dtor of the driver type Extra (drivers/c19_storage.cpp) count constructions / destructions and assert the memory is valid at that moment',
         'protocol primitives for the busy flag with rely-step interference (specs/C19/c19_atomics.h) in the mt_*_tm units; sequential atomics (lib/rt_atomic_seq.c) elsewhere',
     ],
     assumptions=[
         '1 <= sz < 2^30 and block sizes / capacities < 2^30 + 64 (arithmetic bound; sz+1 and sz+sizeof(trailer) do not wrap; a coroutine frame is never empty)',
-        'dealloc(ptr, sz) is called with a pointer returned by alloc(sz) of the same policy and the same sz, and the bytes behind the frame (owner pointer, marker byte, extra object) are as alloc left them (the frame occupies [ptr, ptr+sz) only)',
+        'dealloc(ptr, sz) is called with a pointer returned by alloc(sz) of the same policy and the same sz, and the bytes behind the frame (owner pointer, marker byte, extra object) are as alloc left them (the frame occupies [ptr, ptr+sz) only); for promise_extra_storage over reusable_storage_mtsafe the owner pointer sits at ptr+sz+sizeof(T) and the extra object at ptr+sz has arbitrary content',
         'documented usage of the non-thread-safe policies: reusable_storage, placement_alloc, reusable_buffer_storage and stack_storage serve ONE live frame at a time (alloc is called only when the previous frame is gone); exclusivity of the own block is the caller\'s duty there, it is guaranteed by the busy flag only for reusable_storage_mtsafe',
         'documented usage: a storage object (and stack_storage\'s shared size_t, placement_alloc\'s buffer, the std::vector of reusable_buffer_storage) outlives every frame allocated from it - reusable_storage_mtsafe::dealloc reads the owner even for heap-fallback frames; the user does not touch the vector while a frame lives in it',
         'placement_alloc: the caller\'s buffer is at least sz bytes (the policy cannot check); stack_storage: operator=(alloca(size)) was called with a block of _alloc_size bytes (alloca(0) when the shared state is still 0)',
